@@ -305,4 +305,44 @@ example : (readLenData params [[0], [5], [1], [2], [3]]).res = .ok [1, 2, 3] :=
 example : (writeLenData params (List.replicate 65533 0)).writes = [] :=
   ((C01_lendata_write params C01_valid_lendata _).2 (by rw [List.length_replicate]; omega)).1
 
+/-- **Re-encoding.** The packet object the encoder leaves behind (it carries the codec's wire bits) can be handed to
+    the encoder again — a broadcast loop, a resend — and produces exactly the same `Write` calls, the same return
+    value, and is left unchanged: for every environment, packet and format. -/
+theorem C01_rewrite_same (P : Params) (F : Fmt) (e : Env) (p : Pkt) (n : Nat)
+    (h : (writePacket P F e p).ret = .ok n) :
+    writePacket P F e (writePacket P F e p).pkt = writePacket P F e p := by
+  unfold writePacket at h ⊢
+  by_cases hr : F.v2 = true ∧ p.refs.length > P.maxRefs
+  · simp [hr] at h
+  · simp only [hr, if_false] at h ⊢
+    cases hm : marshalBody P e p with
+    | error er => simp [hm] at h
+    | ok wp =>
+      obtain ⟨w, p'⟩ := wp
+      simp only [hm] at h ⊢
+      obtain ⟨bits, _, hp'⟩ := marshal_flag hm
+      have hrefs : p'.refs = p.refs := by rw [hp']
+      have hm2 := marshal_again P e p p' w hm
+      by_cases ho : F.headerSize + (if F.v2 = true then p'.refs else []).length * 4 + w.length > F.writeMax
+      · simp [ho] at h
+      · simp only [ho, if_false] at h ⊢
+        cases hh : buildHeader F p' (if F.v2 = true then p'.refs else []).length
+            (F.headerSize + (if F.v2 = true then p'.refs else []).length * 4 + w.length)
+            (refBytes (if F.v2 = true then p'.refs else [])) w with
+        | none => simp [hh] at h
+        | some hdr =>
+          simp only [hh]
+          have hr' : ¬ (F.v2 = true ∧ p'.refs.length > P.maxRefs) := by rw [hrefs]; exact hr
+          simp only [hr', if_false, hm2, ho, hh]
+
+/-- non-vacuity: the demo packet is written (`ret = .ok 31`-style success), is left with both codec bits set, and the
+    second encoding of that object is the first one -/
+example : ∃ n, (writePacket params params.v2 demoEnv demoPkt).ret = .ok n ∧
+    (writePacket params params.v2 demoEnv demoPkt).pkt.flag = 0x23#8 ∧
+    writePacket params params.v2 demoEnv (writePacket params params.v2 demoEnv demoPkt).pkt =
+      writePacket params params.v2 demoEnv demoPkt := by
+  have h : ∃ n, (writePacket params params.v2 demoEnv demoPkt).ret = .ok n := ⟨_, rfl⟩
+  obtain ⟨n, hn⟩ := h
+  exact ⟨n, hn, rfl, C01_rewrite_same params params.v2 demoEnv demoPkt n hn⟩
+
 end Fatchoy.C01
